@@ -26,6 +26,9 @@ type Prop struct {
 	Workers int
 	// Budget per tier in seconds (0 = default: quick 70, thorough 900).
 	QuickBudget, ThoroughBudget int
+	// GoMaxProcs for worker subprocesses (0 = default 2). Scheduler-based checks use 1: the
+	// token hand-off between goroutines is ~6x faster without cross-thread wake-ups.
+	GoMaxProcs int
 	Run                         func(r *Run)
 	// Replay re-runs exactly one case from a witness (without the explorer) and records any
 	// violation it sees into r. Optional.
